@@ -269,4 +269,117 @@ theorem bs_applyExtendGroups {G : α → Prop} (hG : PrefixClosed G) (si : SICon
             (bs_resolveExtend c g.units [] upd hupd (hg g (by simp)) (by simp)) hr hk
       exact ih c1 h (fun x hx => hg x (by simp [hx])) h1.1 h1.2
 
+
+/-! ### from the files to the packaged converter -/
+
+/-- the unit entries of a `Units` declaration -/
+def UnitsDecl.entries : UnitsDecl α → List (UnitEntry α)
+  | .unified us => us
+  | .bySystem m i u => m ++ i ++ u
+
+/-- every ratio a units file gives — of a declared unit or in an extend entry — satisfies `G` -/
+def FileG (G : α → Prop) (f : UnitsFile α) : Prop :=
+  (∀ g, g ∈ f.quantity → ∀ d, g.units = some d → ∀ e, e ∈ d.entries → G e.ratio) ∧
+  (∀ x, f.extend = some x → ExtendG G x)
+
+omit [Arith α] in
+theorem bs_declared {G : α → Prop} (files : List (UnitsFile α)) (hf : ∀ f, f ∈ files → FileG G f) : RatG G (declared files) := by
+  intro x hx
+  simp only [declared, declFile, List.mem_flatMap] at hx
+  obtain ⟨f, hfm, g, hg, hx⟩ := hx
+  have h1 := (hf f hfm).1 g hg
+  cases hu : g.units with
+  | none => rw [hu] at hx; simp [declGroupUnits] at hx
+  | some d =>
+    rw [hu] at hx
+    cases d with
+    | unified us =>
+      simp only [declGroupUnits, List.mem_map] at hx
+      obtain ⟨e, he, rfl⟩ := hx
+      exact h1 _ hu e he
+    | bySystem m i u =>
+      simp only [declGroupUnits, List.mem_append, List.mem_map] at hx
+      rcases hx with (⟨e, he, rfl⟩ | ⟨e, he, rfl⟩) | ⟨e, he, rfl⟩
+      · exact h1 _ hu e (by simp [UnitsDecl.entries, he])
+      · exact h1 _ hu e (by simp [UnitsDecl.entries, he])
+      · exact h1 _ hu e (by simp [UnitsDecl.entries, he])
+
+/-- In a successful build whose files give only ratios satisfying `G` (a property kept by the SI prefix ratios), every
+    unit of the final state has a ratio satisfying `G` and at least one key. -/
+theorem bs_buildCore {G : α → Prop} (hG : PrefixClosed G) (files : List (UnitsFile α)) (b : Builder α) (c : Core α)
+    (h : buildCore files = .ok (b, c)) (hf : ∀ f, f ∈ files → FileG G f) :
+    RatG G c.units ∧ KeysBut none c.units := by
+  obtain ⟨hadd, _, hunits, ce, hce, _, _, hext, happ⟩ := audit_buildCore_parts files b c h
+  have hr0 : RatG G b.core.units := by rw [hunits]; exact bs_declared files hf
+  have hk0 : KeysBut none b.core.units := by
+    rw [hunits]
+    intro i x hx _
+    exact (audit_addFiles_keys files _ b hadd x (List.mem_of_getElem? hx)).2.2
+  obtain ⟨hr1, hk1⟩ := bs_expandLoop hG b.si _ b.core ce hce hr0 hk0
+  refine bs_applyExtendGroups hG b.si b.extend ce c happ ?_ hr1 hk1
+  intro g hg
+  rw [hext] at hg
+  obtain ⟨f, hfm, hfg⟩ := List.mem_filterMap.mp hg
+  exact (hf f hfm).2 g hfg
+
+/-- … hence every unit of the converter -/
+theorem bs_build {G : α → Prop} (hG : PrefixClosed G) (files : List (UnitsFile α)) (conv : Converter α)
+    (h : build files = .ok conv) (hf : ∀ f, f ∈ files → FileG G f) :
+    ∀ u, u ∈ conv.units → G u.ratio ∧ u.keys ≠ [] := by
+  obtain ⟨b, c, hbc, _, hp⟩ := (build_good files).of_ok h
+  obtain ⟨hr, hk⟩ := bs_buildCore hG files b c hbc hf
+  intro u hu
+  rw [hp.units] at hu
+  obtain ⟨ub, hub, rfl⟩ := List.mem_map.mp hu
+  obtain ⟨i, hi⟩ := List.getElem?_of_mem hub
+  exact ⟨hr ub hub, hk i ub hi (by simp)⟩
+
+end Cook.Bld
+
+namespace Cook.Bld
+open Cook
+
+/-! ### the side condition over ℚ, decidable -/
+
+/-- **The side condition of the bridge theorems**: no unit entry of any layer has ratio 0, and no extend entry sets a
+    ratio to 0.  (Everything else `Converter.Sound` needs — units with a key, keys resolving to their unit, best lists
+    of the right quantity — the builder enforces itself or rejects the stack.) -/
+def ratiosNonzero (files : List (UnitsFile Rat)) : Bool :=
+  files.all (fun f =>
+    f.quantity.all (fun g => match g.units with
+      | none => true
+      | some d => d.entries.all (fun e => decide (e.ratio ≠ 0)))
+    && match f.extend with
+      | none => true
+      | some x => x.units.all (fun ke => match ke.2.ratio with
+        | none => true
+        | some r => decide (r ≠ 0)))
+
+theorem ratiosNonzero_fileG (files : List (UnitsFile Rat)) (h : ratiosNonzero files = true) :
+    ∀ f, f ∈ files → FileG (fun r : Rat => r ≠ 0) f := by
+  intro f hf
+  simp only [ratiosNonzero, List.all_eq_true, Bool.and_eq_true] at h
+  obtain ⟨h1, h2⟩ := h f hf
+  constructor
+  · intro g hg d hd e he
+    have := h1 g hg
+    rw [hd] at this
+    simp only [List.all_eq_true, decide_eq_true_eq] at this
+    exact this e he
+  · intro x hx ke hke r hr
+    rw [hx] at h2
+    simp only [List.all_eq_true] at h2
+    have := h2 ke hke
+    rw [hr] at this
+    simpa using this
+
+theorem prefixClosed_ne_zero : PrefixClosed (fun r : Rat => r ≠ 0) := by
+  intro r p hr
+  have hp : (prefixRatio p : Rat) ≠ 0 := by cases p <;> decide +kernel
+  show r * prefixRatio p ≠ 0
+  intro h0
+  rcases Rat.mul_eq_zero.mp h0 with h | h
+  · exact hr h
+  · exact hp h
+
 end Cook.Bld
